@@ -34,7 +34,7 @@ func runC11(p *Program, r *Result) {
 	}
 	loop := outer[0]
 	var wcall ssa.CallInstruction // the label comparison
-	var labelsV ssa.Value          // this recipient's labels
+	var labelsV ssa.Value         // this recipient's labels
 	for _, c := range callsIn(enc) {
 		n := calleeName(c.Common())
 		if !(strings.HasSuffix(n, ".slicesEqual") || n == "slices.Equal") || len(c.Common().Args) != 2 || !loop.inLoop(c.Block()) {
